@@ -544,7 +544,7 @@ def output(out: OutputBuffer, aconf: AuditConf, banner: Optional[Banner], header
         if client_audit:
             out.good('(gen) client IP: {}'.format(client_host), always_print=True)
         if len(header) > 0:
-            out.info('(gen) header: ' + '\n'.join(header))
+            out.info('(gen) header: ' + '\n'.join([Utils.to_print_ascii(h) for h in header]))  # Like the banner, the text a peer sends before it is shown in printable ASCII only (no terminal control sequences).
         if banner is not None:
             banner_line = '(gen) banner: {}'.format(banner)
             if sshv == 1 or banner.protocol[0] == 1:
